@@ -3,11 +3,22 @@ package ipldbindcode
 import (
 	"bytes"
 	"fmt"
+	"math"
 
 	"github.com/fxamacker/cbor/v2"
 	"github.com/ipfs/go-cid"
 	cidlink "github.com/ipld/go-ipld-prime/linking/cid"
 )
+
+// nodeDecMode decodes ledger nodes: the library's default limit of 131072 array elements is lower than
+// what the schema allows (a Subset may list every block of an epoch), so lists are only limited by the input.
+var nodeDecMode = func() cbor.DecMode {
+	mode, err := cbor.DecOptions{MaxArrayElements: math.MaxInt32}.DecMode()
+	if err != nil {
+		panic(err)
+	}
+	return mode
+}()
 
 type _array []any
 
@@ -101,7 +112,7 @@ var (
 
 // implement the BinaryUnmarshaler interface for EpochFast
 func (x *Epoch) UnmarshalCBOR(data []byte) error {
-	dec := cbor.NewDecoder(bytes.NewReader(data))
+	dec := nodeDecMode.NewDecoder(bytes.NewReader(data))
 	var arr _array
 	if err := dec.Decode(&arr); err != nil {
 		return err
@@ -178,7 +189,7 @@ func (x *Subset) MarshalCBOR() ([]byte, error) {
 }
 
 func (x *Subset) UnmarshalCBOR(data []byte) error {
-	dec := cbor.NewDecoder(bytes.NewReader(data))
+	dec := nodeDecMode.NewDecoder(bytes.NewReader(data))
 	var arr _array
 	if err := dec.Decode(&arr); err != nil {
 		return err
@@ -264,7 +275,7 @@ func (x *Block) MarshalCBOR() ([]byte, error) {
 }
 
 func (x *Block) UnmarshalCBOR(data []byte) error {
-	dec := cbor.NewDecoder(bytes.NewReader(data))
+	dec := nodeDecMode.NewDecoder(bytes.NewReader(data))
 	var arr _array
 	if err := dec.Decode(&arr); err != nil {
 		return err
@@ -455,7 +466,7 @@ func (x *Rewards) MarshalCBOR() ([]byte, error) {
 }
 
 func (x *Rewards) UnmarshalCBOR(data []byte) error {
-	dec := cbor.NewDecoder(bytes.NewReader(data))
+	dec := nodeDecMode.NewDecoder(bytes.NewReader(data))
 	var arr _array
 	if err := dec.Decode(&arr); err != nil {
 		return err
@@ -521,7 +532,7 @@ func (x *Entry) MarshalCBOR() ([]byte, error) {
 }
 
 func (x *Entry) UnmarshalCBOR(data []byte) error {
-	dec := cbor.NewDecoder(bytes.NewReader(data))
+	dec := nodeDecMode.NewDecoder(bytes.NewReader(data))
 	var arr _array
 	if err := dec.Decode(&arr); err != nil {
 		return err
@@ -599,7 +610,7 @@ func (x *Transaction) MarshalCBOR() ([]byte, error) {
 }
 
 func (x *Transaction) UnmarshalCBOR(data []byte) error {
-	dec := cbor.NewDecoder(bytes.NewReader(data))
+	dec := nodeDecMode.NewDecoder(bytes.NewReader(data))
 	var arr _array
 	if err := dec.Decode(&arr); err != nil {
 		return err
@@ -702,7 +713,7 @@ func (x *DataFrame) MarshalCBOR() ([]byte, error) {
 }
 
 func (x *DataFrame) UnmarshalCBOR(data []byte) error {
-	dec := cbor.NewDecoder(bytes.NewReader(data))
+	dec := nodeDecMode.NewDecoder(bytes.NewReader(data))
 	var arr _array
 	if err := dec.Decode(&arr); err != nil {
 		return err
